@@ -1,4 +1,5 @@
 import H4.Rle
+import H4.RleSess
 import H4.Gen.Fn.Crle
 import H4.Driver.Util
 namespace H4.Driver
@@ -115,8 +116,42 @@ def dec (raw : List Byte) (n : Nat) (model : String) : String :=
   | none, some y => s!"{model} GEN={y}"
 end GenRle
 
+/- mixed sessions on one access id (`T rle sess <element before> <w<hex>,s<offset>,r<count>,...> => <element after> <bytes read>`): the
+    history is replayed on the session model `H4.RleSess` - the TRANSLATED `HCIcrle_staccess` / `HCIcrle_init`, `HCPcrle_write`,
+    `HCPcrle_read`, `HCPcrle_endaccess` (and through them `HCIcrle_encode` / `HCIcrle_decode` / `HCIcrle_term`) plus the hand model of
+    `HCPcrle_seek` -, started on a record with arbitrary content, as `malloc` leaves it.  `H4.Props.C05RleSess.session_roundtrip` proves
+    that the element after such a session decodes to the bytes written. -/
+namespace SessRle
+open H4.RleSess
+
+def parseOp (t : String) : Option Op :=
+  match t.toList with
+  | 'w' :: r => (parseHex (String.ofList r)).map Op.write
+  | 's' :: r => (String.ofList r).toNat?.map Op.seek
+  | 'r' :: r => (String.ofList r).toNat?.map Op.read
+  | _ => none
+
+def parseScript (s : String) : Option (List Op) :=
+  if s == "-" then some [] else (s.splitOn ",").mapM parseOp
+
+def bytesOf (l : List Int) : String := GenRle.hex l
+
+/-- the record before `HCIcrle_staccess`: nothing in it is initialised (`info` is a fresh `malloc` block) -/
+def garbage (file : List Int) (length : Nat) : St :=
+  { st := 2, len := 77, pos := 99, last := 65, second := 65, offset := 12345, encoding := 1, buffer := List.replicate H4.Gen.Crle.RLE_BUF_SIZE 0xA5,
+    file := file, fpos := 4, length := length, access := H4.Gen.Hdf.DFACC_RDWR }
+
+def step (raw0 : List Byte) (script : String) : String :=
+  match parseScript script, dec raw0 with
+  | some ops, some d0 =>
+    match session (garbage (ints raw0) d0.length) H4.Gen.Hdf.DFACC_WRITE ops with
+    | some (f, rd) => s!"{bytesOf f} {bytesOf rd}"
+    | none => "fail"
+  | _, _ => "bad-op"
+end SessRle
+
 /-- engine `rle` (stateless):  `enc <hex>` => compressed bytes;  `dec <hex>` => decoded bytes | fail;
-    both also run the translated C functions (`GenRle`) -/
+    both also run the translated C functions (`GenRle`);  `sess <hex> <script>` => element and bytes read after a mixed session -/
 def stepRle (args : List String) : String :=
   match args with
   | ["enc", d] => match parseHex d with
@@ -126,6 +161,9 @@ def stepRle (args : List String) : String :=
     | some bs => match dec bs with
       | some o => GenRle.dec bs o.length (toHex o)
       | none => "fail"
+    | none => "bad-op"
+  | ["sess", r0, script] => match parseHex r0 with
+    | some raw0 => SessRle.step raw0 script
     | none => "bad-op"
   | _ => "bad-op"
 
